@@ -718,8 +718,9 @@ class PteraTransformer(NodeTransformer):
         After:
             x: int = _ptera_interact('x', int)
         """
+        value = node.value and self.visit(node.value)
         return self.make_interaction(
-            node.target, self._ann(node.annotation), node.value, orig=node
+            node.target, self._ann(node.annotation), value, orig=node
         )
 
     def visit_Assign(self, node):
@@ -756,6 +757,8 @@ class PteraTransformer(NodeTransformer):
                 )
             return accum
 
+        # The right-hand side may contain yields and assignment expressions
+        node.value = self.visit(node.value)
         targets = node.targets
         if len(targets) > 1:
             return _decompose(targets, lambda value, i: value)
